@@ -4,7 +4,6 @@ harness binaries run the correspondence, what is trusted)."""
 GO_TRUST = "Go compiler/runtime; the harness (cmd/%s) and the Lean line-protocol driver, incl. their canonicalisation"
 
 GSYNC_COMMON = dict(
-    lean_modules=["Lemmas.GSyncInv", "Lemmas.GSyncSum", "Properties.C01", "Properties.C02"],
     harness=[dict(bin="h-gsync", instrument=dict(src="/repo/gsync", dst="instr/gsyncx"))],
     trusted=[GO_TRUST % "h-gsync", "cmd/instrument (rewrites only the import paths sync, sync/atomic and the builtin close)",
              "internal/sched: cooperative scheduler and shims = sequentially consistent atomics, mutex, close",
@@ -20,6 +19,7 @@ PROPS = {
         level_note="Trusted: Lean kernel + standard axioms; SC atomics (Go memory model) as implemented by the scheduler shims; the source rewriter; the harness and driver. Not modelled: the real Go scheduler, preemption within one atomic instruction.",
         technique="Lean 4 proof (inductive invariant over all programs x schedules) + lock-step trace correspondence under a controlled scheduler",
         explanation="theorem quantifies over all programs and schedules; lock-step tie C",
+        lean_modules=["Properties.C01"],
         **GSYNC_COMMON),
     "C02": dict(
         title="gsync: waiters released at zero, consistent at rest, Wait never blocks",
@@ -27,6 +27,7 @@ PROPS = {
         level_note="Trusted: as C01, plus Go's select/timer semantics for WaitTimeout/WaitCTX (they select on Wait()'s result; that Wait returns promptly is the proved part).",
         technique="Lean 4 proof (inductive invariant; bounded termination of Wait at rest) + lock-step trace correspondence under a controlled scheduler",
         explanation="quiescence theorems + two-step termination of Wait",
+        lean_modules=["Properties.C02"],
         **GSYNC_COMMON),
     "C11": dict(
         title="set: BitSet is exact bit-set algebra and reports changes truthfully",
